@@ -1,6 +1,9 @@
 package main
 
 import (
+	"math"
+	"regexp"
+	"strconv"
 	"fmt"
 	"go/types"
 
@@ -148,7 +151,28 @@ func (st *State) addPC(t *Term) {
 		return
 	}
 	st.pc = append(st.pc, t)
+	// redundant but helpful fact: fp.eq(x, c) with c finite and non-zero fixes the bit pattern of x,
+	// which lets the solver's simplifier substitute it instead of bit-blasting a symbolic operand
+	if m := fpEqConstRe.FindStringSubmatch(t.S); m != nil {
+		bits, err := strconv.ParseUint(m[3], 16, 64)
+		w := 4 * len(m[3])
+		if err == nil && (w == 64 || w == 32) {
+			var finiteNonZero bool
+			if w == 64 {
+				f := math.Float64frombits(bits)
+				finiteNonZero = f == f && f-f == 0 && f != 0
+			} else {
+				f := math.Float32frombits(uint32(bits))
+				finiteNonZero = f == f && f-f == 0 && f != 0
+			}
+			if finiteNonZero {
+				st.pc = append(st.pc, &Term{Sort: BoolSort, S: fmt.Sprintf("(= %s #x%s)", m[2], m[3]), size: 3})
+			}
+		}
+	}
 }
+
+var fpEqConstRe = regexp.MustCompile(`^\(fp\.eq \(\(_ to_fp (\d+ \d+)\) (v\d+_\w+)\) \(\(_ to_fp \d+ \d+\) #x([0-9a-f]+)\)\)$`)
 
 // ---------- heap access ----------
 
